@@ -13,6 +13,7 @@ from . import c14
 PID = "C03"
 LEVEL = "other"
 N = 2
+NP = 2  # slots of the join partners (two, so that a partner can hold duplicate rows)
 PRE = ("calc d=a+b", "sel a>k", "proj -b")
 MID1 = ("calc d=a+b", "proj -b", "sel a>k", "dedup", "sort -b,a", "slice s:e", "mat", "sort a")
 MID2 = (("sort a", "sel a>k"), ("proj -b", "dedup"), ("dedup", "sel a>k"), ("sel a>k", "sort -b,a"), ("calc d=a+b", "proj -b"),
@@ -176,7 +177,7 @@ def make_env(ctx, symbolic=True, leaves=("X", "S", "Y", "T", "Z", "U")):
     for name, (eng, cols) in meprogs.LEAVES.items():
         tab = None
         if ctx is not None:
-            tab = common.sym_table(ctx, name, cols, N if name in ("X", "S") else 1, ordered=(eng != "sq"))
+            tab = common.sym_table(ctx, name, cols, N if name in ("X", "S") else NP, ordered=(eng != "sq"))
         add_abstract_leaf(env, name, cols, eng, tab)
     return env
 
@@ -343,7 +344,7 @@ def run_shape(shape, tier):
         for cx in res.cex[:1]:
             m = cx["model"]
             bind = templates.bind_concrete(params, m)
-            rows = {n: common.rows_from_model(m, n, meprogs.LEAFCOLS[n], N if n in ("X", "S") else 1) for n in meprogs.LEAVES}
+            rows = {n: common.rows_from_model(m, n, meprogs.LEAFCOLS[n], N if n in ("X", "S") else NP) for n in meprogs.LEAVES}
             fails, symptom, detail = concrete_check(prog, rows, bind)
             if not fails:
                 return {"status": "harness-error", "detail": f"counterexample does not reproduce: {fmt(prog)} {bind} {rows} {cx['label']} {cx['info']}", **tot}
